@@ -116,6 +116,75 @@ func writeShape(repo, propsPath, id, outDir, extra string) error {
 			sb.WriteString("  " + l + "\n")
 		}
 	}
+	// methods on types declared in the anchor files that live in OTHER files of the same package (a new file can
+	// add or shadow methods of an anchored type, e.g. override a promoted method, without touching the anchor file)
+	anchored := map[string]bool{}
+	typesByDir := map[string]map[string]bool{}
+	for _, rel := range files {
+		anchored[filepath.Clean(rel)] = true
+		if !strings.HasSuffix(rel, ".go") {
+			continue
+		}
+		fs := token.NewFileSet()
+		f, err := parser.ParseFile(fs, filepath.Join(repo, rel), nil, parser.SkipObjectResolution)
+		if err != nil {
+			continue
+		}
+		dir := filepath.Dir(rel)
+		if typesByDir[dir] == nil {
+			typesByDir[dir] = map[string]bool{}
+		}
+		for _, d := range f.Decls {
+			if gd, ok := d.(*ast.GenDecl); ok {
+				for _, sp := range gd.Specs {
+					if ts, ok := sp.(*ast.TypeSpec); ok {
+						typesByDir[dir][ts.Name.Name] = true
+					}
+				}
+			}
+		}
+	}
+	var dirs []string
+	for d := range typesByDir {
+		dirs = append(dirs, d)
+	}
+	sort.Strings(dirs)
+	for _, dir := range dirs {
+		ents, _ := os.ReadDir(filepath.Join(repo, dir))
+		var extra []string
+		for _, e := range ents {
+			n := e.Name()
+			rel := filepath.Join(dir, n)
+			if !strings.HasSuffix(n, ".go") || strings.HasSuffix(n, "_test.go") || strings.HasPrefix(n, "verif_") || anchored[filepath.Clean(rel)] {
+				continue
+			}
+			fs := token.NewFileSet()
+			f, err := parser.ParseFile(fs, filepath.Join(repo, rel), nil, parser.SkipObjectResolution)
+			if err != nil {
+				continue
+			}
+			for _, d := range f.Decls {
+				fd, ok := d.(*ast.FuncDecl)
+				if !ok || fd.Recv == nil || len(fd.Recv.List) != 1 {
+					continue
+				}
+				t := fd.Recv.List[0].Type
+				if st, ok := t.(*ast.StarExpr); ok {
+					t = st.X
+				}
+				if id, ok := t.(*ast.Ident); ok && typesByDir[dir][id.Name] {
+					extra = append(extra, "func ("+nodeText(fs, fd.Recv.List[0].Type)+") "+fd.Name.Name+strings.TrimPrefix(nodeText(fs, fd.Type), "func")+"   [in "+n+"]")
+				}
+			}
+		}
+		sort.Strings(extra)
+		if len(extra) > 0 {
+			fmt.Fprintf(&sb, "== methods of anchored types declared elsewhere in %s/\n", dir)
+			for _, l := range extra {
+				sb.WriteString("  " + l + "\n")
+			}
+		}
+	}
 	os.MkdirAll(outDir, 0o755)
 	return os.WriteFile(filepath.Join(outDir, "shape_"+id+".txt"), []byte(sb.String()), 0o644)
 }
